@@ -459,7 +459,10 @@ def _ac_shapes(tier):
            dict(m=6, p=3, ncp=4, dim=2, centripetal=False, sym=[2], table='lattice'),
            dict(m=7, p=3, ncp=4, dim=3, centripetal=True, sym=[], table='lattice'),
            dict(m=6, p=2, ncp=4, dim=2, centripetal=False, sym=[], table='uniform'),
-           dict(m=7, p=3, ncp=5, dim=3, centripetal=True, sym=[], table='uniform')]
+           dict(m=7, p=3, ncp=5, dim=3, centripetal=True, sym=[], table='uniform'),
+           # higher degrees with enough control points that basis functions further apart than the degree still overlap
+           dict(m=10, p=4, ncp=8, dim=2, centripetal=False, sym=[], table='lattice'),
+           dict(m=11, p=5, ncp=9, dim=2, centripetal=True, sym=[], table='uniform')]
     if tier == 'thorough':
         for c in (False, True):
             out.append(dict(m=7, p=3, ncp=6, dim=2, centripetal=c, sym=[0, 6], table='lattice'))
